@@ -60,6 +60,12 @@ type Ledger struct {
 	nDeq    int
 	nAck    int
 	Notifs  int
+
+	// Hold, if non-nil, parks the next successful dequeue call after it has taken its item until the
+	// channel is closed; Held reports that a call is parked there. Used to create a quiescent point in
+	// the middle of a dispatch.
+	Hold chan struct{}
+	Held bool
 }
 
 func NewLedger(env *Env, prio bool) *Ledger {
@@ -179,6 +185,15 @@ func (l *Ledger) dequeueAck() (any, bool, string) {
 	l.unacked[id] = it
 	l.logCall("deq", it.Seq, id)
 	l.cut()
+	if h := l.Hold; h != nil {
+		// park with the item already taken (delivered, unacknowledged) and not yet handed to the caller
+		l.Hold = nil
+		l.Held = true
+		l.mu.Unlock()
+		<-h
+		l.mu.Lock()
+		l.Held = false
+	}
 	if it.Raw != nil {
 		return it.Raw, true, id
 	}
@@ -251,6 +266,28 @@ func (l *Ledger) subscribe(f func(string)) {
 	l.mu.Lock()
 	l.subs = append(l.subs, f)
 	l.logCall("sub", -1, "")
+	l.mu.Unlock()
+}
+
+// HoldNextDequeue arms the hold and returns the channel that releases it.
+func (l *Ledger) HoldNextDequeue() chan struct{} {
+	l.mu.Lock()
+	defer l.mu.Unlock()
+	h := make(chan struct{})
+	l.Hold = h
+	return h
+}
+
+func (l *Ledger) IsHeld() bool {
+	l.mu.Lock()
+	defer l.mu.Unlock()
+	return l.Held
+}
+
+// Disarm removes a hold nobody ran into.
+func (l *Ledger) Disarm() {
+	l.mu.Lock()
+	l.Hold = nil
 	l.mu.Unlock()
 }
 
